@@ -84,7 +84,8 @@ OPS = ['parse_plain', 'parse_scoped', 'parse_macro', 'parse_import', 'parse_incl
        'bind_rejected', 'call_plain', 'call_scoped', 'use_singleton', 'finalize', 'unlock_ok', 'unlock_raising',
        'const_K', 'const_aX', 'const_bX', 'interactive_const_X', 'const_dup', 'enter_interactive',
        'exit_interactive', 'operative_str_fails', 'config_str_fails', 'const_gin_namespace',
-       'singleton_with_finalizer']
+       'singleton_with_finalizer', 'parse_static_import_gin', 'parse_dynamic', 'config_str_plain', 'const_array',
+       'const_required_alias']
 KEYS = ['c20.f.a', 'c20.f.b', 's/c20.f.a', 'c20.user.x', 'k/gin.singleton.constructor']
 SING = 'c20.user.x = @k/gin.singleton()\nk/gin.singleton.constructor = @c20.Obj\n'
 
@@ -96,6 +97,29 @@ def bound(tier):
 
 class Quiet(Exception):
   pass
+
+
+class ArrayLike:
+  """Just enough of an ndarray: `==` / `!=` are element-wise and the result has no truth value."""
+  __hash__ = None
+
+  def __init__(self, items):
+    self.items = list(items)
+
+  def __eq__(self, other):
+    return ArrayLike([i == other for i in self.items])
+
+  def __ne__(self, other):
+    return ArrayLike([i != other for i in self.items])
+
+  def __bool__(self):
+    raise ValueError('The truth value of an array with more than one element is ambiguous.')
+
+  def __repr__(self):
+    return 'ArrayLike(%r)' % (self.items,)
+
+
+ARR = ArrayLike([1, 2])
 
 
 _ALT = [0]   # second life of a history: the same operations binding other values (same number of bindings)
@@ -160,6 +184,16 @@ def do_op(op):
       gin.enter_interactive_mode()
     elif op == 'exit_interactive':
       gin.exit_interactive_mode()
+    elif op == 'parse_static_import_gin':
+      gin.parse_config('import gin.utils\nc20.f.a = %d' % (12 + k))     # the commonest import line of legacy files
+    elif op == 'parse_dynamic':
+      gin.parse_config('from __gin__ import dynamic_registration\nimport json')
+    elif op == 'config_str_plain':
+      gin.config_str()               # fails when both import styles were recorded ("`gin` symbol is reserved")
+    elif op == 'const_array':
+      gin.constant('c20.ARR', ARR)   # comparisons are element-wise, the truth value of the result is ambiguous
+    elif op == 'const_required_alias':
+      gin.constant('c20.REQ', gin.REQUIRED)
     return 'ok'
   except Exception as e:  # pylint: disable=broad-except
     return type(e).__name__
@@ -186,6 +220,10 @@ def model_constants(hist):
       consts['X'] = 3
     elif op == 'const_gin_namespace' and (interactive or not _matches(consts, 'gin.contrib.DTYPE')):
       consts['gin.contrib.DTYPE'] = 'dt'
+    elif op == 'const_array' and (interactive or not _matches(consts, 'c20.ARR')):
+      consts['c20.ARR'] = ARR
+    elif op == 'const_required_alias' and (interactive or not _matches(consts, 'c20.REQ')):
+      consts['c20.REQ'] = gin.REQUIRED
   return consts
 
 
@@ -390,7 +428,11 @@ class World:
               calls.append((F(), gin.get_bindings(F)))
           except Exception as e:  # pylint: disable=broad-except
             calls.append('raised %s' % type(e).__name__)
-        return (outs, calls, gin.config_str())
+        try:
+          text = gin.config_str()
+        except Exception as e:  # pylint: disable=broad-except
+          text = 'raised %s' % type(e).__name__      # (both import styles recorded: a failure of that call, in both lives)
+        return (outs, calls, text)
       harness.hard_reset()
       COUNT.clear()
       alone = life(100)
